@@ -306,6 +306,10 @@ func init() {
 	reg("(github.com/cosmos/cosmos-sdk/types.Context).BlockHeight", "BlockHeight is the header height of the current block", func(c *CallCtx) []Outcome {
 		return c.ret(TV{T: c.x.blockHeight(), Ty: tInt64})
 	})
+	reg("(github.com/cosmos/cosmos-sdk/types.Context).BlockHeader", "BlockHeader is the header of the current block (a fixed value of the context)", func(c *CallCtx) []Outcome {
+		ty := c.resultType(0)
+		return c.ret(TV{T: c.x.enc.DeclConst("ctx.header", c.x.enc.Sort(ty)), Ty: ty})
+	})
 	reg("(github.com/cosmos/cosmos-sdk/types.Context).EventManager", "EventManager is the event sink of the context", func(c *CallCtx) []Outcome {
 		return c.ret(ObjV{Path: fmt.Sprintf("evmgr@%d", handleOf(c.args[0])), Ty: c.resultType(0)})
 	})
